@@ -5,7 +5,8 @@ CONSTANT Tier
 Absent == [absent |-> TRUE]
 L(x) == [list |-> x]
 OpSecs == {Absent, L(<<>>), L(<< <<>> >>), L(<< <<"A">> >>), L(<< <<"A", "B">> >>), L(<< <<"A">>, <<"B">> >>),
-           L(<< <<"A", "B">>, <<"C">> >>), L(<< <<"A">>, <<>> >>), L(<< <<"B">>, <<"A", "C">> >>)}
+           L(<< <<"A", "B">>, <<"C">> >>), L(<< <<"A">>, <<>> >>), L(<< <<"B">>, <<"A", "C">> >>),
+           L(<< <<"A", "B">>, <<"A">> >>), L(<< <<"A", "B">>, <<"B">> >>), L(<< <<"A", "B">>, <<"B", "C">>, <<"A">> >>)}
 DocSecs == {<<>>, << <<"A">> >>, << <<"B">> >>}
 
 P(in, name, kind) == [in |-> in, name |-> name, kind |-> kind]
